@@ -256,6 +256,9 @@ public:
         if (E->EvaluateAsInt(R, Ctx, Expr::SE_NoSideEffects))
           o["cv"] = R.Val.getInt().getExtValue();
       }
+      if (!E->isValueDependent() && !E->isTypeDependent() && E->getType()->isPointerType() &&
+          E->isNullPointerConstant(Ctx, Expr::NPC_ValueDependentIsNotNull) != Expr::NPCK_NotNull)
+        o["null"] = true;
     }
 
     if (auto *DRE = dyn_cast<DeclRefExpr>(S)) {
@@ -707,6 +710,27 @@ public:
     Records.push_back(std::move(r));
   }
 
+  // C structs (the C units have no CXXRecordDecls): name, location and fields in declaration order
+  void emitCRecord(const RecordDecl *RD) {
+    if (!RD || !RD->isThisDeclarationADefinition()) return;
+    if (!inRoot(RD->getLocation())) return;
+    json::Object r;
+    r["q"] = RD->getNameAsString();
+    r["l"] = loc(RD->getLocation());
+    r["bases"] = json::Array();
+    r["methods"] = json::Array();
+    json::Array fs;
+    for (auto *F : RD->fields()) {
+      json::Object x;
+      x["n"] = F->getNameAsString();
+      x["d"] = declId(F);
+      putType(x, F->getType());
+      fs.push_back(std::move(x));
+    }
+    r["fields"] = std::move(fs);
+    Records.push_back(std::move(r));
+  }
+
   void emitGlobal(const VarDecl *VD) {
     if (!VD->hasGlobalStorage()) return;
     if (VD->isStaticLocal()) {
@@ -777,6 +801,10 @@ public:
   }
   bool VisitCXXRecordDecl(CXXRecordDecl *RD) {
     X.emitRecord(RD);
+    return true;
+  }
+  bool VisitRecordDecl(RecordDecl *RD) {
+    if (!isa<CXXRecordDecl>(RD)) X.emitCRecord(RD);
     return true;
   }
   bool VisitVarDecl(VarDecl *VD) {
